@@ -275,6 +275,22 @@ func (w *countingWriter) Write(p []byte) (int, error) { return w.buf.Write(p) }
 type limitWriter struct {
 	budget, got int
 	failed      bool
+	want        []byte // when set: the stream a fault-free run emitted; the bytes accepted must be its prefix
+	differs     bool   // an accepted byte was not the byte of want at that place
+	diffAt      int
+}
+
+// check compares the n bytes of p being accepted at offset w.got with the expected stream.
+func (w *limitWriter) check(p []byte, n int) {
+	if w.want == nil || w.differs {
+		return
+	}
+	for i := 0; i < n; i++ {
+		if w.got+i >= len(w.want) || w.want[w.got+i] != p[i] {
+			w.differs, w.diffAt = true, w.got+i
+			return
+		}
+	}
 }
 
 var errWriteFault = errors.New("verif: injected write failure")
@@ -285,12 +301,58 @@ func (w *limitWriter) Write(p []byte) (int, error) {
 	}
 	if w.got+len(p) > w.budget {
 		n := w.budget - w.got
+		w.check(p, n)
 		w.got += n
 		w.failed = true
 		return n, errWriteFault
 	}
+	w.check(p, len(p))
 	w.got += len(p)
 	return len(p), nil
+}
+
+// richWriter is a destination that, like *bufio.Writer, *bytes.Buffer or *os.File, offers WriteByte and WriteString
+// besides Write. All three go through the wrapped writer, so they count into the same buffer and honour the same
+// byte budget; the calls taken through the two extra methods are counted.
+type richWriter struct {
+	w                      io.Writer
+	byteCalls, stringCalls int64
+}
+
+func (w *richWriter) Write(p []byte) (int, error) { return w.w.Write(p) }
+
+func (w *richWriter) WriteByte(c byte) error {
+	w.byteCalls++
+	_, err := w.w.Write([]byte{c})
+	return err
+}
+
+func (w *richWriter) WriteString(s string) (int, error) {
+	w.stringCalls++
+	return w.w.Write([]byte(s))
+}
+
+// windowWriter accepts everything while open. While failing it accepts cut more bytes, then short-writes with an
+// error and refuses every further call until it is opened again (a disk that was full for a moment, a pipe that
+// timed out once).
+type windowWriter struct {
+	buf     bytes.Buffer
+	failing bool
+	cut     int
+}
+
+func (w *windowWriter) Write(p []byte) (int, error) {
+	if !w.failing {
+		return w.buf.Write(p)
+	}
+	if w.cut > 0 && w.cut >= len(p) {
+		w.cut -= len(p)
+		return w.buf.Write(p)
+	}
+	n := w.cut
+	w.buf.Write(p[:n])
+	w.cut = 0
+	return n, errWriteFault
 }
 
 // chunkReader delivers data in irregular small chunks and records whether EOF was delivered.
@@ -374,7 +436,13 @@ var ioRoomyTemplates int64
 func readAllFasta(rng *rand.Rand, data []byte, al alphabet.Alphabet, maxCalls int) ([]seq.Sequence, error, int) {
 	// half of the time the quality-carrying type is the template: letters arrive through its own AppendLetters
 	tmpl := ioTemplate(rng, al, rng.Intn(2) == 0, alphabet.Sanger)
-	rd := fasta.NewReader(newSrc(rng, data), tmpl)
+	return readAllFastaFrom(newSrc(rng, data), tmpl, maxCalls)
+}
+
+// readAllFastaFrom reads every record from src (which may be a *bufio.Reader of the caller's own size: the reader
+// then works with that buffer) into clones of tmpl.
+func readAllFastaFrom(src io.Reader, tmpl seqio.SequenceAppender, maxCalls int) ([]seq.Sequence, error, int) {
+	rd := fasta.NewReader(src, tmpl)
 	var out []seq.Sequence
 	for calls := 1; ; calls++ {
 		s, err := rd.Read()
@@ -392,8 +460,12 @@ func readAllFasta(rng *rand.Rand, data []byte, al alphabet.Alphabet, maxCalls in
 }
 
 func readAllFastq(rng *rand.Rand, data []byte, al alphabet.Alphabet, enc alphabet.Encoding, plainTemplate bool, maxCalls int) ([]seq.Sequence, error, int) {
-	var rd *fastq.Reader
-	rd = fastq.NewReader(newSrc(rng, data), ioTemplate(rng, al, !plainTemplate, enc))
+	src := newSrc(rng, data)
+	return readAllFastqFrom(src, ioTemplate(rng, al, !plainTemplate, enc), maxCalls)
+}
+
+func readAllFastqFrom(src io.Reader, tmpl seqio.SequenceAppender, maxCalls int) ([]seq.Sequence, error, int) {
+	rd := fastq.NewReader(src, tmpl)
 	var out []seq.Sequence
 	for calls := 1; ; calls++ {
 		s, err := rd.Read()
